@@ -467,7 +467,7 @@ func c17Scenarios(c *fw.Ctx) []*Scenario {
 	}
 	combos := [][]string{{"view", "view"}, {"view", "view-raw"}, {"view", "sum"}, {"view", "view-b"}, {"view-raw", "sum"}, {"sum", "sum"}, {"items", "files"}, {"view", "items"}, {"view-raw", "files"}, {"view-raw", "view-raw"},
 		{"view-raw", "view-raw-b"}, {"sum", "sum-y"}, {"sum", "sum-later"}, {"files", "files-it"}, {"view-b", "view-raw-b"},
-		{"view-bad-int", "view-oor"}, {"view-bad-ts", "view-oor"}, {"sum-oor", "sum-bad-int"}, {"view-bad-int", "view"}, {"view-oor", "view-inverted"}, {"view-inverted", "sum-oor"},
+		{"view-bad-int", "view-oor"}, {"view-bad-ts", "view-oor"}, {"view-oor", "view"}, {"sum-oor", "sum"}, {"sum-oor", "sum-bad-int"}, {"view-bad-int", "view"}, {"view-oor", "view-inverted"}, {"view-inverted", "sum-oor"},
 		{"view", "view-raw", "sum"}, {"view", "view-b", "items"}, {"view-raw", "view-raw-b", "view-b"}, {"view-bad-int", "view-oor", "view-bad-ts"}}
 	solos := map[string]hobs{}
 	for _, combo := range combos {
@@ -492,9 +492,13 @@ func c17Scenarios(c *fw.Ctx) []*Scenario {
 			if ok {
 				for _, n := range combo {
 					if _, have := solos[n]; !have {
+						mkServed()                // fresh files: nothing an earlier request left behind (a lock) reaches this one
 						solos[n] = serve(reqs[n]) // alone, no scheduler installed
 					}
 				}
+			}
+			if ok {
+				mkServed()
 			}
 			res := make([]hobs, len(combo))
 			var bodies []func()
